@@ -41,27 +41,46 @@ Definition obs_eqb (a b : obs) : bool :=
   | _, _ => false
   end.
 
-(** 0 = everything agrees; otherwise the number of the first leg that does not *)
+(** three independent legs; each returns 0 when it agrees, else the number of the first comparison
+    that fails *)
+
+(** generator: the model's instruction list and statement addresses are literally the implementation's *)
+Definition check_gen (dims : list (name * pos)) (p : program) (impl_code : list ipos) (impl_marks : list nat) : nat :=
+  let g := gen_program dims p in
+  if negb (code_eqb (resolve (code g)) impl_code) then 1
+  else if negb (nats_eqb (marks g) impl_marks) then 2 else 0.
+
+(** VM: the machine model run on the implementation's own instruction list ends as the real VM did *)
+Definition check_vm (impl_code : list ipos) (o : obs) (stdout : list Z) (gvars : env) (fuel : nat) : nat :=
+  match obs_of_m (run num_text is_negative fuel impl_code m0) with
+  | None => 3
+  | Some (mo, ms) =>
+      if negb (obs_eqb mo o) then 3
+      else if negb (out_eqb (out (mscreen ms)) stdout) then 4
+      else if negb (env_eqb (mvars ms) gvars) then 5 else 0
+  end.
+
+(** the property itself: the real run ends as the reference semantics prescribe *)
+Definition check_sem (dims : list (name * pos)) (p : program) (o : obs) (stdout : list Z) (gvars : env) (fuel : nat) : nat :=
+  match obs_of_s (exec_program num_text is_negative fuel p (mk_state (map (fun d => (fst d, default_of (snd (fst d)))) dims) dev0)) with
+  | None => 6
+  | Some (so, ss) =>
+      if negb (obs_eqb so o) then 6
+      else if negb (out_eqb (out (screen ss)) stdout) then 7
+      else if negb (env_eqb (vars ss) gvars) then 8 else 0
+  end.
+
 Definition check_c01 (dims : list (name * pos)) (p : program) (impl_code : list ipos) (impl_marks : list nat)
            (o : obs) (stdout : list Z) (gvars : env) (fuel : nat) : nat :=
-  let g := gen_program dims p in
-  let rc := resolve (code g) in
-  if negb (code_eqb rc impl_code) then 1
-  else if negb (nats_eqb (marks g) impl_marks) then 2
-  else
-    match obs_of_m (run num_text is_negative fuel rc m0) with
-    | None => 3
-    | Some (mo, ms) =>
-        if negb (obs_eqb mo o) then 3
-        else if negb (out_eqb (out (mscreen ms)) stdout) then 4
-        else if negb (env_eqb (mvars ms) gvars) then 5
-        else
-          match obs_of_s (exec_program num_text is_negative fuel p (mk_state (map (fun d => (fst d, default_of (snd (fst d)))) dims) dev0)) with
-          | None => 6
-          | Some (so, ss) =>
-              if negb (obs_eqb so o) then 6
-              else if negb (out_eqb (out (screen ss)) stdout) then 7
-              else if negb (env_eqb (vars ss) gvars) then 8
-              else 0
-          end
-    end.
+  match check_gen dims p impl_code impl_marks with
+  | O => match check_vm impl_code o stdout gvars fuel with
+         | O => check_sem dims p o stdout gvars fuel
+         | n => n
+         end
+  | n => n
+  end.
+
+(** all three legs at once (used to explain a disagreement) *)
+Definition check_legs (dims : list (name * pos)) (p : program) (impl_code : list ipos) (impl_marks : list nat)
+           (o : obs) (stdout : list Z) (gvars : env) (fuel : nat) : list nat :=
+  [check_gen dims p impl_code impl_marks; check_vm impl_code o stdout gvars fuel; check_sem dims p o stdout gvars fuel].
